@@ -167,7 +167,7 @@ SAMPLE_TOKENS = [("ID", "zz"), ("INT", "7"), ("FLOAT", "0.5"), ("STRING", '"s"')
                  ("WEIGHTED", "weighted"), ("RETURN", "return"), ("AND", "and"), ("OR", "or")]
 
 MUTATIONS = ["delete", "duplicate", "swap-adjacent", "swap-distant", "insert-token", "insert-illegal", "prefix-junk",
-             "suffix-junk", "replace-token", "broken-def-in-front", "two-definitions", "truncate"]
+             "suffix-junk", "replace-token", "broken-def-in-front", "two-definitions", "truncate", "glue-illegal", "separator-before-closer"]
 
 
 @st.composite
@@ -219,6 +219,20 @@ def mutate_tokens(draw, toks, other_toks=None):
             toks = toks + list(other_toks or toks)
         elif kind == "truncate":
             toks = toks[:i]
+        elif kind == "glue-illegal":
+            # an illegal character glued onto a token without whitespace: 18. / 1e3 / x; / a.b / "s"! ...
+            ty, tx = toks[i]
+            ch = draw(st.sampled_from([".", ";", "!", "@", "=", "#", "$", "%", "e3", ".5.", "_0" if ty in ("INT", "FLOAT") else "."]))
+            if draw(st.booleans()) or ty in ("ID", "INT", "FLOAT") and ch in ("e3", "_0"):
+                toks[i] = ("GLUED", tx + ch)
+            else:
+                toks[i] = ("GLUED", ch + tx)
+        elif kind == "separator-before-closer":
+            closers = [j for j, (t, _) in enumerate(toks) if t in ("RPAREN", "RBRACE", "LBRACE", "RETURN", "IF")]
+            if not closers:
+                continue
+            j = closers[draw(st.integers(0, len(closers) - 1))]
+            toks.insert(j, draw(st.sampled_from([("COMMA", ","), ("COLON", ":"), ("COMMA", ",")])))
         else:
             continue
         kinds.append(kind)
